@@ -65,7 +65,7 @@ func runC06(ctx *core.Ctx, idx int) *core.Result {
 	r := ctx.Rand("c06", idx)
 	g := gen.NewG(r)
 	g.Comment = r.Intn(2) == 0
-	kind := []string{"A-anchor-absent", "B-mixed", "C-guard-fails", "D-near-miss", "E-mixed-with-failures", "F-only-inadmissible-sites"}[idx%6]
+	kind := []string{"A-anchor-absent", "B-mixed", "C-guard-fails", "D-near-miss", "E-mixed-with-failures", "F-only-inadmissible-sites", "G-only-package-clause-or-imports"}[idx%7]
 	withFailures := kind == "E-mixed-with-failures"
 	if withFailures {
 		// like B, plus a file that does not parse and a file on which a change matches but cannot be built:
@@ -75,6 +75,8 @@ func runC06(ctx *core.Ctx, idx int) *core.Result {
 	matching := "@@\nvar x expression\n@@\n-bump(x)\n+bump(x + 1)\n"
 	var patches []string
 	guardedFollowUp := false
+	gk := 0
+	_ = gk
 	guardFilePkg, guardFileImp := "", "" // kind C: the package / the import the files have instead of the guarded one
 	switch kind {
 	case "A-anchor-absent":
@@ -126,6 +128,24 @@ func runC06(ctx *core.Ctx, idx int) *core.Result {
 				patches = append(patches, "# for the renamed package\n@@\nvar x expression\n@@\n package q\n\n-bump(x)\n+bump(x + 1)\n")
 				guardedFollowUp = true
 			}
+		}
+	case "G-only-package-clause-or-imports":
+		// the code of the patch is spelled like the package name, an import name or an import path of the files and like
+		// nothing in their code: the package clause and the imports are not code, nothing matches
+		gk = r.Intn(4)
+		switch gk {
+		case 0:
+			patches = append(patches, "# rename\n@@\n@@\n-zzpkgname\n+zzrenamed\n")
+			guardFilePkg = "zzpkgname"
+		case 1:
+			patches = append(patches, "# path\n@@\n@@\n-\"example.com/zz/lit\"\n+\"example.com/zz/other\"\n")
+			guardFileImp = "\"example.com/zz/lit\""
+		case 2:
+			patches = append(patches, "# import name\n@@\n@@\n-zzalias\n+zznewalias\n")
+			guardFileImp = "zzalias \"example.com/zz/named\""
+		default:
+			patches = append(patches, "# both\n@@\nvar x expression\n@@\n-package zzpkgname\n+package zzother\n\n-zzpkgname\n+zzrenamed\n", "@@\n@@\n-zzalias.Use\n+zzalias.Used\n")
+			guardFilePkg, guardFileImp = "zzpkgname", "zzalias \"example.com/zz/named\""
 		}
 	case "D-near-miss":
 		patches = append(patches, "# near\n@@\nvar x expression\n@@\n-bump(x, 1)\n+bump(x + 1)\n")
